@@ -601,3 +601,25 @@ func scalePipe(c *Case, res map[string]any, fail func(string, ...any)) {
 		recv.Close()
 	}
 }
+
+func init() { components["extras19"] = runExtras19 }
+
+// C19 extras (oracle-only): WithStack at a deep call stack; frequencies of the default-source Sample functions.
+func runExtras19(c *Case) *Obs {
+	res := map[string]any{"ok": true, "msg": ""}
+	p, v := protect(func() {
+		switch c.Cfg["kind"].(string) {
+		case "withstack-depth":
+			d := num(c.Cfg["depth"])
+			res["frames"] = deepWithStack(d)
+		case "sample-freq":
+			n, k, trials := num(c.Cfg["n"]), num(c.Cfg["k"]), num(c.Cfg["trials"])
+			res["counts"] = sampleFreq(c.Cfg["fn"].(string), n, k, trials)
+		}
+	})
+	if p {
+		res["ok"] = false
+		res["msg"] = fmt.Sprintf("panic: %v", v)
+	}
+	return &Obs{Obs: []any{res}}
+}
